@@ -504,6 +504,8 @@ OrangeInput load_geometry_input(json const& geo, GenGeoStats* stats)
 {
     if (geo.value("kind", "file") == "gen")
         return generate_geometry(geo, stats);
+    if (geo.value("kind", "file") == "api")
+        return build_api_geometry(geo, stats);
     std::ifstream f(geo.at("file").get<std::string>());
     if (!f)
         throw std::runtime_error("cannot open geometry file");
